@@ -160,6 +160,14 @@ func (tr *Translator) encFn(t types.Type) string {
 	return n
 }
 
+// encTextFn: the text json.Marshal produces for a value of type t (a function of the value)
+func (tr *Translator) encTextFn(t types.Type) string {
+	u := tr.u
+	n := "encText_" + typeKey(t)
+	u.decl(n, fmt.Sprintf("(declare-fun %s (%s) String)", n, u.sortOf(t)))
+	return n
+}
+
 func (tr *Translator) decFn(t types.Type) (dec, ok string) {
 	u := tr.u
 	tr.jsonDecls()
@@ -302,6 +310,14 @@ func (fc *fctx) jsonMarshal(cc *ssa.CallCommon, pos token.Pos) []*Val {
 	a := tr.alloc()
 	tr.assume(implies(okc, and(eq(slPart(b, 0), a), eq(slPart(b, 1), "0"), "(> "+slPart(b, 2)+" 0)", "(>= "+slPart(b, 3)+" "+slPart(b, 2)+")", "(jWF "+b.E()+")")))
 	tr.assume(implies(not(okc), eq(slPart(b, 0), "0")))
+	// the text produced is a function of the value encoded (encoding/json is deterministic: map keys are sorted)
+	u.decl("specfn:textOf", "(declare-fun textOf (Slice) String)")
+	if viaPtr {
+		lvT := tr.loadTag(tr.cur, v.E(), base, "cell")
+		tr.assume(implies(and(okc, not(eq(v.E(), "0"))), eq("(textOf "+b.E()+")", "("+tr.encTextFn(base)+" "+lvT.E()+")")))
+	} else {
+		tr.assume(implies(okc, eq("(textOf "+b.E()+")", "("+tr.encTextFn(t)+" "+v.E()+")")))
+	}
 	var sv *Val // struct value to encode field by field
 	var st *types.Struct
 	opaque := false
